@@ -32,20 +32,24 @@ type blk struct {
 	Parent int `json:"parent"` // index into Blocks; -1 = previous block missing (PrevBlock nil, unknown hash)
 }
 
+// input.SameRank lists rounds in which every block carries RoundRank 0 and its own
+// RoundTimeoutCount (re-proposals after round restarts); elsewhere ranks are 0,1,2.. within a round.
+
 type fop struct {
 	K string `json:"k"` // add|finalize
 	N int    `json:"n"` // block index (add) / round number (finalize)
 }
 
 type input struct {
-	Kind   string  `json:"kind"`            // compute|history
-	Blocks []blk   `json:"blocks"`          // block 0 is the genesis block (round 0)
-	Rounds []int   `json:"rounds"`          // rounds that have a round object
-	Known  [][]int `json:"known,omitempty"` // compute: Known[i] = notarized blocks of Rounds[i]
-	Lfbr   int     `json:"lfbr,omitempty"`
-	R      int     `json:"r,omitempty"`
-	Ahead  int     `json:"ahead,omitempty"`
-	Ops    []fop   `json:"ops,omitempty"`
+	SameRank []int   `json:"same_rank_rounds,omitempty"` // rounds whose blocks all carry RoundRank 0 (re-proposals)
+	Kind     string  `json:"kind"`                       // compute|history
+	Blocks   []blk   `json:"blocks"`                     // block 0 is the genesis block (round 0)
+	Rounds   []int   `json:"rounds"`                     // rounds that have a round object
+	Known    [][]int `json:"known,omitempty"`            // compute: Known[i] = notarized blocks of Rounds[i]
+	Lfbr     int     `json:"lfbr,omitempty"`
+	R        int     `json:"r,omitempty"`
+	Ahead    int     `json:"ahead,omitempty"`
+	Ops      []fop   `json:"ops,omitempty"`
 }
 
 // vc records the blocks finalizeRound runs the view change on
@@ -77,6 +81,10 @@ func build(in *input) *env {
 		b := block.NewBlock("", int64(bd.Round))
 		b.Hash = hashOf(i)
 		b.RoundRank = rankInRound[bd.Round]
+		if hasInt(in.SameRank, bd.Round) {
+			b.RoundRank = 0
+			b.RoundTimeoutCount = rankInRound[bd.Round]
+		}
 		rankInRound[bd.Round]++
 		b.SetStateStatus(block.StateSuccessful)
 		if bd.Parent >= 0 {
@@ -462,6 +470,15 @@ func genTree(r *vh.Rand, maxRound, maxPerRound int, missing bool) []blk {
 	return bs
 }
 
+func hasInt(xs []int, x int) bool {
+	for _, y := range xs {
+		if y == x {
+			return true
+		}
+	}
+	return false
+}
+
 func allRounds(n int) []int {
 	out := make([]int, n+1)
 	for i := range out {
@@ -488,6 +505,19 @@ func genCompute(r *vh.Rand) *input {
 		for j, rn := range in.Rounds {
 			if rn == b.Round {
 				in.Known[j] = append(in.Known[j], i)
+			}
+		}
+	}
+	if r.Chance(1, 3) {
+		// re-proposals: all blocks of a round have the same rank; a round object holds one block per
+		// rank, so at most one of them is known as notarized there - the others are previous blocks only
+		for j, rn := range in.Rounds {
+			if rn == 0 || r.Chance(1, 2) {
+				continue
+			}
+			in.SameRank = append(in.SameRank, rn)
+			if len(in.Known[j]) > 1 {
+				in.Known[j] = in.Known[j][r.Intn(len(in.Known[j])):][:1]
 			}
 		}
 	}
@@ -605,6 +635,18 @@ func exhaustive(maxBlocks, maxRound int, f func(in *input)) int {
 				}
 				f(in)
 				count++
+				// the same tree where the blocks of every round with at most one notarized block all
+				// carry the same rank (different timeout counts)
+				in2 := *in
+				for rn, ids := range in.Known {
+					if rn > 0 && len(ids) <= 1 {
+						in2.SameRank = append(in2.SameRank, rn)
+					}
+				}
+				if len(in2.SameRank) > 0 {
+					f(&in2)
+					count++
+				}
 			}
 		}
 		if len(bs)-1 == maxBlocks {
@@ -633,7 +675,7 @@ func exhaustive(maxBlocks, maxRound int, f func(in *input)) int {
 
 func key(in *input) string {
 	var b strings.Builder
-	fmt.Fprintf(&b, "%s|%v|%v|%v|%d|%d|%d|%v", in.Kind, in.Blocks, in.Rounds, in.Known, in.Lfbr, in.R, in.Ahead, in.Ops)
+	fmt.Fprintf(&b, "%v|%s|%v|%v|%v|%d|%d|%d|%v", in.SameRank, in.Kind, in.Blocks, in.Rounds, in.Known, in.Lfbr, in.R, in.Ahead, in.Ops)
 	return b.String()
 }
 
